@@ -362,8 +362,11 @@ var c13Cases = []redirCase{
 }
 
 func c13Scenario(rc redirCase, kind string, pos int, bound int) *world.Scenario {
+	return c13ScenarioKey(rc, kind, pos, bound, keysA[5])
+}
+
+func c13ScenarioKey(rc redirCase, kind string, pos int, bound int, key string) *world.Scenario {
 	sc := &world.Scenario{Nodes: T3m(), Bound: bound, Horizon: 70, Family: rc.name}
-	key := keysA[5]
 	var reqs []Req
 	others := []Req{GetReq(keysB[1]), GetReq(keysA[2]), GetReq(keysC[1])}
 	var r Req
@@ -387,6 +390,9 @@ func c13Scenario(rc redirCase, kind string, pos int, bound int) *world.Scenario 
 	sc.Clients = []world.ClientSpec{ClientOf(reqs, true)}
 	sc.Reply = rc.reply(key)
 	sc.Name = fmt.Sprintf("C13/%s/%s@%d/d%d", rc.name, kind, pos, bound)
+	if key != keysA[5] {
+		sc.Name += fmt.Sprintf("/slot%d", world.SpecSlot([]byte(key)))
+	}
 	sc.Check = func(w *world.World) []world.Violation {
 		// count re-sends of the redirected request
 		n := 0
@@ -442,6 +448,15 @@ func c13Scenarios(tier string) []*world.Scenario {
 			}
 		}
 	}
+	// slot numbers at the edges of the redirect line's number field: slot 0, a one-digit slot, the last slot of the range
+	initSlotKeys()
+	for _, rc := range c13Cases[:3] {
+		for _, slot := range []int{0, 7, 5460} {
+			for _, kind := range []string{"get", "mget", "del"} {
+				out = append(out, c13ScenarioKey(rc, kind, 1, b, slotKeys[slot]))
+			}
+		}
+	}
 	return out
 }
 
@@ -451,7 +466,7 @@ func init() {
 		Scenarios: c11Scenarios, BudgetQuick: 90, BudgetThorough: 1200,
 		Assumptions: []string{"error texts are representative Redis error lines; the property quantifies over the error class, which the proxy treats uniformly (first byte '-')"}})
 	register(&Check{ID: "C13", Level: "model_checking",
-		Rule:      "cluster-model redirect situations {slot moved A->B; slot migrating A->B (ASK, target serves only after ASKING); MOVED chain A->B->C; two nodes redirecting to each other with MOVED and with ASK; MOVED followed by an ASK cycle; MOVED / ASK to self} x {single-key GET, fragment of MGET, fragment of DEL} x every position of a 3-request pipeline next to non-redirected requests x every interleaving within the bound; oracle: final node's reply once and in order, ASKING immediately before the re-sent command, bounded number of re-sends; non-trivial = >= 1 deviation; distinct = observable outcomes",
+		Rule:      "cluster-model redirect situations {slot moved A->B; slot migrating A->B (ASK, target serves only after ASKING); MOVED chain A->B->C; two nodes redirecting to each other with MOVED and with ASK; MOVED followed by an ASK cycle; MOVED / ASK to self} x {single-key GET, fragment of MGET, fragment of DEL} x every position of a 3-request pipeline next to non-redirected requests x every interleaving within the bound; oracle: final node's reply once and in order, ASKING immediately before the re-sent command, bounded number of re-sends; non-trivial = >= 1 deviation; distinct = observable outcomes; plus the first three situations for keys of slot 0, a one-digit slot and the last slot of the node's range",
 		Scenarios: c13Scenarios, BudgetQuick: 90, BudgetThorough: 1200,
 		Assumptions: []string{"node model implements MOVED/ASK/ASKING as the Redis Cluster specification describes"}})
 }
